@@ -23,7 +23,9 @@ ASSUMPTIONS = [
     'Eigen / Boost types are not available in the image and are not part of the alphabet',
 ]
 
-SUPPORT = [D.ns('ns', [D.cls('Pose', [D.ctor('Pose'), D.method(single(T('int')), 'objId', [], 1)]),
+SUPPORT = [D.cls('GBase', [D.ctor('GBase'), D.method(single(T('int')), 'g', [], 1)], v=1),
+           D.cls('GBox', [D.ctor('GBox')], tpl=[D.tparam('T', [T('double')])], v=1),
+           D.ns('ns', [D.cls('Pose', [D.ctor('Pose'), D.method(single(T('int')), 'objId', [], 1)]),
                        D.cls('Rot', [D.ctor('Rot')]),
                        D.enum('Kind', ['Dog', 'Cat'])])]
 
@@ -115,9 +117,17 @@ def constructs(seed=0):
                    # a serializing template with two arguments (its export needs a typedef'd alias)
                    D.cls('Sw', [D.ctor('Sw'), D.method(single(T('void')), 'serialize', [])],
                          tpl=[D.tparam('A', [T('int'), T('ns::Pose')]), D.tparam('B', [T('double'), T('ns::Rot')])])]
+    # bases from the global namespace, spelled without qualifier inside a namespace
+    c['global_base'] = [D.cls('Dg', [D.ctor('Dg'), D.method(single(T('int')), 'd', [], 1)], v=1, b=T('GBase')),
+                        D.ns('deeper', [D.cls('Dh', [D.ctor('Dh')], v=1, b=T('GBox', t=[T('double')]))])]
+    # enumerators spelled like Python keywords; a class that owns an enum and has nothing but dunder methods
+    c['keyword_enumerators'] = [D.enum('Ek', ['None', 'pass', 'global', 'True'], 'enum class'),      # (scoped: `keywords` has functions of these names)
+                                D.cls('Ke', [D.enum('Mood', ['None', 'Happy'], 'enum class'), D.ctor('Ke')]),
+                                D.cls('Kb', [D.enum('E', ['X', 'Y']), D.dunder('len'), D.dunder('contains', [arg(T('int'), 'k')]), D.dunder('iter')])]
     # print declared static, with and without arguments, next to an ordinary one
     c['static_print'] = [D.cls('Ps', [D.ctor('Ps'), D.static(single(T('void')), 'print', [arg(T('string', 1, '&'), 'prefix')])]),
                          D.cls('Pt', [D.static(single(T('void')), 'print', [])]),
+                         D.cls('Pv', [D.ctor('Pv'), D.method(single(T('void')), 'print', [arg(T('T', 1, '&'), 'v')], 1, [D.tparam('T', [T('double'), T('int')])])]),
                          D.cls('Pu', [D.method(single(T('void')), 'print', [arg(T('string', 1, '&'), 's'), arg(T('int'), 'n', '2')], 1),
                                       D.method(single(T('int')), 'printCount', [], 1), D.static(single(T('string')), 'printName', [arg(T('int'), 'i')])])]
     c['same_name_enums'] = [D.ns('n1', [D.cls('A', [D.enum('E', ['X']), D.ctor('A')])]),
